@@ -40,6 +40,7 @@ BROKEN = [
     "@vec\nItems: Items Comma Item | Item | Semi;\nItem: Num | Id;\nterminals\nNum: /\\d+/;\nId: /[a-z]+/;\nComma: ',';\nSemi: ';';\n",
     "@vec\nS: S A | A | Kw Kw;\nA: Ta;\nterminals\nTa: /a/;\nKw: 'k';\n", "@vec\nS: A;\nA: Ta;\nterminals\nTa: /a/;\n",
     "@vec\nS: S S | Ta;\nterminals\nTa: /a/;\n", "@vec\nS: Ta S Tb | Ta;\nterminals\nTa: /a/;\nTb: /b/;\n",
+    "S: _1 Tx;\n_1: Ta | Tb | EMPTY;\nterminals\nTa: /a/;\nTb: /b/;\nTx: 'x';\n", "S: _7 Tx;\n_7: x=Ta y=Tb | EMPTY;\nterminals\nTa: /a/;\nTb: /b/;\nTx: 'x';\n",
     "S: A;\nterminals\nA: '';\n", "S: A;\nterminals\nA: //;\n", "S: A B;\nterminals\nA: 'a';\nB: 'a';\n",
 ]
 
@@ -119,6 +120,28 @@ def gen(rng, tier):
     for _ in range(n_mut // 5):
         g = annotate(rng, random_grammar(rng, p_empty=0.2), p_prod=0.6, p_term=0.4, p_rule=0.3)
         jobs.append(("annotated", g.render(), rng.choice("DG"), rng.choice("FA"), settings_vec(rng)))
+    # identifier shapes: every name the grammar language accepts (valid Rust identifiers incl. leading / doubled / only
+    # underscores, digits after an underscore, one letter) in every role - rule with EMPTY alternative (struct / enum /
+    # optional types), content terminal, keyword terminal, assignment name, production kind; default builder
+    # (type and action names are DERIVED from them by case conversion) and generic builder
+    odd = ["_1", "__", "_", "_a", "A_", "a__B", "_9_", "__x", "X_1", "x", "_1a", "A1_", "___", "_0", "a_1_b", "Ab_", "_Ab", "ß", "Δx"]
+    templates = [
+        "S: {R} {T};\n{R}: {T} {K} | EMPTY;\nterminals\n{T}: /a+/;\n{K}: 'k';\n",
+        "S: {R}? {R}*;\n{R}: {n}={T} {K} | {K} {m}={T} {T};\nterminals\n{T}: /a+/;\n{K}: 'k';\n",
+        "S: {R}+[{K}];\n{R}: {T} {{{V}}} | {K} {T} {{{W}}} | EMPTY;\nterminals\n{T}: /a+/;\n{K}: 'k';\n",
+        "{R}: {T} {R} | EMPTY;\nterminals\n{T}: /a+/;\n",
+        "S: {n}={R} {m}?={K};\n{R}: {T}* {K};\nterminals\n{T}: /a+/;\n{K}: 'k';\n",
+    ]
+    for it in range(400 if tier == "quick" else 4000):
+        t = templates[it % len(templates)]
+        roles = ["R", "T", "K", "n", "m", "V", "W"]
+        # every role gets the odd names in turn; a second odd name lands anywhere
+        first = roles[(it // len(templates)) % len(roles)]
+        rest = [r for r in roles if r != first]
+        rng.shuffle(rest)
+        nm = rng.sample(odd, 2) + rng.sample(["Rr", "Tt", "Kk", "nn", "mm", "Vv", "Ww"], 5)
+        sub = dict(zip([first] + rest, nm))
+        jobs.append(("names", t.format(**sub), rng.choice("DDG"), rng.choice("FA"), settings_vec(rng)))
     # the front-end families of C09 (repetition sugar in every order and combination, separators, named/bool assignments,
     # meta-data, inline strings, name clashes, Layout rules, broken specs) through the WHOLE compiler, and token-level
     # mutations of them
